@@ -27,3 +27,4 @@ import RosuModel.Props.C02FinalToy
 import RosuModel.Props.C02FinalUnordered
 import RosuModel.Props.C02FinalCurves
 import RosuModel.Props.C02FinalScroll
+import RosuModel.Props.C02FinalScrollToy
